@@ -155,6 +155,65 @@ def run_accept(report, n, rng):
         report_failure(report, f"acceptance_{i}", dict(kind="corr+property", case=m, note="accepted inputs with a repeated glyph name, or rejected distinct ones"))
 
 
+def run_master_accept(report, n, rng):
+    """config.load's acceptance of the masters' source sets (unique file names within a master, the same set of names in
+    every master) against Model.Inputs.masters_accepted, on generated configurations: equal sets, a missing or extra
+    source, equally many but different sources, one file name twice within a master (two directories)"""
+    from absl import flags
+    from nanoemoji import config as cfgmod
+
+    IMPORTS = ["Model.Inputs Corr.Common Corr.C17"]
+    if not flags.FLAGS.is_parsed():
+        flags.FLAGS(["verif"])
+    cases, meta = [], []
+    names = [f"emoji_u{0x1F600 + k:x}.svg" for k in range(6)]
+    with scratch_dir("verif-c17ms-") as d:
+        for i in range(n):
+            nm = rng.randint(1, 3)
+            base = rng.sample(names, rng.randint(1, 4))
+            kind = ["equal", "equal", "missing", "extra", "same-size-different", "duplicate-name"][i % 6]
+            masters = []
+            for m in range(nm):
+                files = [(f"c{i}/m{m}", f) for f in base]
+                if m == nm - 1 and nm > 1:
+                    others = [f for f in names if f not in base]
+                    if kind == "missing" and len(files) > 1:
+                        files = files[:-1]
+                    elif kind == "extra" and others:
+                        files.append((f"c{i}/m{m}", others[0]))
+                    elif kind == "same-size-different" and others:
+                        files[-1] = (f"c{i}/m{m}", others[0])
+                if kind == "duplicate-name" and m == 0:
+                    files.append((f"c{i}/m{m}x", base[0]))
+                masters.append(files)
+            text = 'output_file="VF.ttf"\n[axis.wght]\nname="Weight"\ndefault=100\n'
+            for m, files in enumerate(masters):
+                for sub, f in files:
+                    (d / sub).mkdir(parents=True, exist_ok=True)
+                    (d / sub / f).write_text("<svg/>")
+                text += f'[master.m{m}]\nstyle_name="M{m}"\nsrcs=[' + ", ".join(f'"{sub}/{f}"' for sub, f in files) + f']\n[master.m{m}.position]\nwght={100 + 100 * m}\n'
+            cfg = d / f"c{i}.toml"
+            cfg.write_text(text)
+            try:
+                cfgmod.load(cfg)
+                accepted = True
+            except Exception as ex:
+                accepted = False
+            ids = {f: k for k, f in enumerate(names)}
+            cases.append("(" + listlit([listlit([f"{ids[f]}%Z" for _, f in files]) for files in masters]) + f", {'true' if accepted else 'false'})")
+            meta.append(dict(function="config.load (masters' source sets)", kind=kind, masters=[[f"{sub}/{f}" for sub, f in files] for files in masters], impl_out=accepted))
+            report.count(("mst", kind, str(masters)), kind not in ("equal",))
+            report.hist("masters.kind", kind)
+            report.hist("masters.outcome", "accepted" if accepted else "refused")
+    bad = eval_bad_indices(IMPORTS, "", "(list (list Z) * bool)%type", cases, ["mst_agree"], tag="masters")
+    report.notes["masters.cases"] = len(cases)
+    report.notes["masters.disagreements"] = len(bad["mst_agree"])
+    if bad["mst_agree"]:
+        i = bad["mst_agree"][0]
+        # the model accepts iff names are unique per master and all masters have one set: a disagreement is a property failure
+        report_failure(report, f"masters_accept_{i}", dict(kind="corr+property", case=meta[i], note="masters with different or ambiguous source sets accepted, or agreeing ones refused"))
+
+
 def main(argv):
     common.setup_env()
     tier = common.tier_from_args(argv)
@@ -163,12 +222,13 @@ def main(argv):
         "real CLI runs: one defect class (duplicate codepoints / sequence / file name / colliding glyph names, malformed XML, "
         "unparsable colour, unknown spreadMethod, palette index conflict, oversize CBDT bitmap; masters whose source sets differ in either direction) at a random "
         "position among 0-5 valid sources, in a colour format the class applies to; must exit non-zero and leave no fresh font; a "
-        "valid control must succeed. In process: acceptance of glyph-name lists vs the model"
+        "valid control must succeed. In process: acceptance of glyph-name lists, and config.load's acceptance of the masters' source sets, vs the model"
     )
     st = proof_gate(report)
     rng = random.Random(report.seed)
     if common.vo_ok("Corr/C17.v"):
         run_accept(report, 40 if tier == "quick" else 600, rng)
+        run_master_accept(report, 36 if tier == "quick" else 600, random.Random(rng.getrandbits(48)))
     run_cli(report, 24 if tier == "quick" else 400, rng)
     if not report.violations:
         run_masters(report, rng)
